@@ -335,6 +335,26 @@ def run_scenario(sc, scratch, keep_objects=False):
                 except Exception as e:
                     o['detector_exc'] = type(e).__name__
             obs.append(o)
+        elif st['op'] == 'regen':
+            # C16: read, save what was read into a fresh file, read that, ... ; record the content of each generation
+            p = fpath(st['file'])
+            gens = []
+            try:
+                kw = {}
+                if st.get('emdpath') is not None:
+                    kw['emdpath'] = st['emdpath']
+                with core.quiet():
+                    x = emdfile.read(p, tree=st['tree'], **kw)
+                gens.append(abs_read(x))
+                for g in range(st.get('gens', 3)):
+                    p2 = fpath(1000 + g)
+                    with core.quiet():
+                        emdfile.save(p2, x, mode='o')
+                        x = emdfile.read(p2)
+                    gens.append(abs_read(x))
+                obs.append({'raised': False, 'gens': gens})
+            except BaseException as e:
+                obs.append({'raised': True, 'exc': type(e).__name__ + ': ' + str(e)[:120], 'gens': gens})
         elif st['op'] == 'read':
             p = fpath(st['file'])
             before_sha = sha(p)
@@ -451,7 +471,7 @@ class Em:
                     steps.append(f"SSave {st['file']} {st['top']} {self.path(st['tp'])} {wa} {coqbool(o['raised'])} {self.slot(o['slot'])}")
                 else:
                     steps.append(f"SSaveIn {st['file']} {self.input(st['input'])} {wa} {coqbool(o['raised'])} {self.slot(o['slot'])}")
-            else:
+            elif st['op'] == 'read':
                 ep = 'None' if st.get('emdpath') is None else f"(Some {self.I.s(st['emdpath'])})"
                 steps.append(f"SRead {st['file']} {ep} {self.tree_opt(st['tree'])} {self.oread(o)}")
         tops = coqlist([self.rnode(t) for t in sc['tops']])
